@@ -3312,6 +3312,7 @@ AnalyserExternalVariablePtrs::const_iterator Analyser::AnalyserImpl::findExterna
         auto component = owningComponent(variable);
 
         return (component != nullptr)
+               && (model != nullptr)
                && (owningModel(variable) == model)
                && (component->name() == componentName)
                && (variable->name() == variableName);
